@@ -53,6 +53,22 @@ struct HeterTupleSize <HeterTuple <Types...> >
 
 namespace internal_ {
 
+// Drop the first N types of a HeterTuple.
+template <int N, typename T, typename Enabled = void>
+struct HeterTupleSkip;
+
+template <int N, typename ...Types>
+struct HeterTupleSkip <N, HeterTuple<Types...>, typename std::enable_if<(N <= 0)>::type>
+{
+	using Type = HeterTuple<Types...>;
+};
+
+template <int N, typename T, typename ...Types>
+struct HeterTupleSkip <N, HeterTuple<T, Types...>, typename std::enable_if<(N > 0)>::type>
+{
+	using Type = typename HeterTupleSkip<N - 1, HeterTuple<Types...> >::Type;
+};
+
 template <typename T>
 struct FindPrototypeDefaultArgTransformer
 {
